@@ -26,8 +26,9 @@ import (
 )
 
 type constraint struct {
-	a, b string // a - b <= c
+	a, b string // a - b <= c   (neq: a - b != c)
 	c    int64
+	neq  bool
 	deps []ssa.Value // SSA values whose definitions must dominate the use site
 	why  string
 }
@@ -1029,6 +1030,8 @@ func (bf *boundsFn) edgeConstraints(facts []edgeFact) (out []constraint) {
 					add(xa, xo, ya, yo, 0, "x==y")
 					add(ya, yo, xa, xo, 0, "x==y")
 				case token.NEQ:
+					// remembered for tightening: x <= y and x != y give x <= y-1
+					out = append(out, constraint{a: xa, b: ya, c: yo - xo, why: "neq", deps: nil, neq: true})
 					// x != c where x is a length or unsigned and c == 0: x >= 1
 					if ya == "0" && yo == 0 && (strings.HasPrefix(xa, "len:") || bt.Info()&types.IsUnsigned != 0) && xo == 0 {
 						add("0", 1, xa, 0, 0, "len != 0")
@@ -1231,6 +1234,19 @@ func (bf *boundsFn) prove1(a string, ao int64, b string, bo int64, at ssa.Instru
 	}
 	cs = append(cs, bf.edgeConstraints(factsAt(at.Block()))...)
 	cs = append(cs, extra...)
+	// disequalities are kept apart: they only serve to tighten x <= y to x <= y-1
+	var neqs []constraint
+	{
+		kept := cs[:0:0]
+		for _, c := range cs {
+			if c.neq {
+				neqs = append(neqs, c)
+			} else {
+				kept = append(kept, c)
+			}
+		}
+		cs = kept
+	}
 	// every length is >= 0
 	nodes := map[string]bool{a: true, b: true, "0": true}
 	for _, c := range cs {
@@ -1241,25 +1257,50 @@ func (bf *boundsFn) prove1(a string, ao int64, b string, bo int64, at ssa.Instru
 			cs = append(cs, constraint{a: "0", b: n, c: 0})
 		}
 	}
-	// Bellman-Ford: dist[x] = tightest bound on x - b
-	dist := map[string]int64{}
-	for n := range nodes {
-		dist[n] = math.MaxInt64 / 4
-	}
-	dist[b] = 0
-	for i := 0; i < len(nodes)+1; i++ {
-		changed := false
-		for _, c := range cs {
-			// c.a - c.b <= c.c  =>  dist[c.a] <= dist[c.b] + c.c
-			if dist[c.b] < math.MaxInt64/8 && dist[c.b]+c.c < dist[c.a] {
-				dist[c.a] = dist[c.b] + c.c
-				changed = true
+	// Bellman-Ford: dist[x] = tightest bound on x - src
+	bellman := func(src string) map[string]int64 {
+		dist := map[string]int64{}
+		for n := range nodes {
+			dist[n] = math.MaxInt64 / 4
+		}
+		dist[src] = 0
+		for i := 0; i < len(nodes)+1; i++ {
+			changed := false
+			for _, c := range cs {
+				// c.a - c.b <= c.c  =>  dist[c.a] <= dist[c.b] + c.c
+				if dist[c.b] < math.MaxInt64/8 && dist[c.b]+c.c < dist[c.a] {
+					dist[c.a] = dist[c.b] + c.c
+					changed = true
+				}
+			}
+			if !changed {
+				break
 			}
 		}
-		if !changed {
+		return dist
+	}
+	// integer tightening with the disequalities: x - y <= c and x - y != c give
+	// x - y <= c-1 (and symmetrically)
+	for round := 0; round < 2 && len(neqs) > 0; round++ {
+		added := false
+		for _, q := range neqs {
+			if !nodes[q.a] || !nodes[q.b] {
+				nodes[q.a], nodes[q.b] = true, true
+			}
+			if d := bellman(q.b)[q.a]; d < math.MaxInt64/8 && d == q.c {
+				cs = append(cs, constraint{a: q.a, b: q.b, c: q.c - 1, why: "x <= y and x != y"})
+				added = true
+			}
+			if d := bellman(q.a)[q.b]; d < math.MaxInt64/8 && d == -q.c {
+				cs = append(cs, constraint{a: q.b, b: q.a, c: -q.c - 1, why: "y <= x and x != y"})
+				added = true
+			}
+		}
+		if !added {
 			break
 		}
 	}
+	dist := bellman(b)
 	// a - b <= dist[a]; need a + ao - b - bo <= 0
 	if os.Getenv("DBGPROVE") != "" {
 		fmt.Fprintf(os.Stderr, "prove %s%+d <= %s%+d at %s: dist=%d\n", a, ao, b, bo, bf.p.describe(at), dist[a])
@@ -1379,8 +1420,159 @@ func newBoundsFn(p *Prog, fw *fieldWrites, f *ssa.Function) *boundsFn {
 	bf.buildClasses()
 	bf.buildBase()
 	bf.inferInvariants()
+	bf.inferCounterInvariants()
 	bf.callerPreconditions()
 	return bf
+}
+
+// inferCounterInvariants: for a loop counter p (header phi, one initial value,
+// every other edge p+1) whose every increment is made where p < L held for
+// one and the same length atom L (the loop guard `p < len(x)`, possibly the
+// first conjunct of a longer condition), p <= L holds at the header and after
+// the loop, provided it holds initially. (L is a canonical length atom: two
+// loads of a field share it only when no write lies between them.)
+func (bf *boundsFn) inferCounterInvariants() {
+	for _, hd := range bf.fn.Blocks {
+		loop := naturalLoop(hd)
+		if loop == nil {
+			continue
+		}
+		for _, ins := range hd.Instrs {
+			phi, ok := ins.(*ssa.Phi)
+			if !ok {
+				break
+			}
+			bt, ok := phi.Type().Underlying().(*types.Basic)
+			if !ok || bt.Info()&types.IsInteger == 0 {
+				continue
+			}
+			pa, po := bf.atom(phi)
+			if po != 0 {
+				continue
+			}
+			var init ssa.Value
+			var latches []*ssa.BasicBlock
+			good := true
+			for k, e := range phi.Edges {
+				pred := hd.Preds[k]
+				if !loop[pred] {
+					if init != nil {
+						good = false
+					}
+					init = e
+					continue
+				}
+				ea, eo := bf.atom(e)
+				if ea != pa || eo != 1 {
+					good = false
+				}
+				latches = append(latches, pred)
+			}
+			if !good || init == nil || len(latches) == 0 {
+				continue
+			}
+			// the length atom of a guard p < len(V) that holds at every latch, V
+			// being the same list in every iteration: a value defined outside the
+			// loop, or a load of an address that nothing in the loop can write
+			invariantList := func(v ssa.Value) bool {
+				if ins, ok := v.(ssa.Instruction); ok && ins.Block() != nil && loop[ins.Block()] {
+					ld, isLd := v.(*ssa.UnOp)
+					if !isLd || ld.Op != token.MUL {
+						return false
+					}
+					if ai, ok := ld.X.(ssa.Instruction); ok && ai.Block() != nil && loop[ai.Block()] {
+						// the address itself may be computed in the loop (&s.col): its base must not be
+						fa, isFA := ld.X.(*ssa.FieldAddr)
+						if !isFA {
+							return false
+						}
+						if bi, ok := fa.X.(ssa.Instruction); ok && bi.Block() != nil && loop[bi.Block()] {
+							return false
+						}
+					}
+					for blk := range loop {
+						for _, i2 := range blk.Instrs {
+							if bf.fw.mayWriteAddr(i2, ld.X) {
+								return false
+							}
+						}
+					}
+					return true
+				}
+				return true
+			}
+			var L string
+			found := false
+			for li, latch := range latches {
+				var cands []string
+				for _, ef := range expandFacts(factsAt(latch)) {
+					bo, ok := ef.Cond.(*ssa.BinOp)
+					if !ok {
+						continue
+					}
+					op := bo.Op
+					if !ef.Truth {
+						op = negateCmp(op)
+					}
+					var lenSide, ctrSide ssa.Value
+					switch op {
+					case token.LSS:
+						ctrSide, lenSide = bo.X, bo.Y
+					case token.GTR:
+						ctrSide, lenSide = bo.Y, bo.X
+					default:
+						continue
+					}
+					if ca, co := bf.atom(ctrSide); ca != pa || co != 0 {
+						continue
+					}
+					c, _ := callOf(lenSide)
+					if c == nil || builtinName(c.Common()) != "len" || !invariantList(c.Common().Args[0]) {
+						continue
+					}
+					la, lo := bf.lenAtom(c.Common().Args[0])
+					if lo == 0 {
+						cands = append(cands, la)
+					}
+				}
+				if li == 0 {
+					if len(cands) > 0 {
+						L, found = cands[0], true
+					}
+					continue
+				}
+				ok2 := false
+				for _, cd := range cands {
+					if cd == L {
+						ok2 = true
+					}
+				}
+				if !ok2 {
+					found = false
+				}
+			}
+			if !found {
+				continue
+			}
+			// initially: init <= L (at the end of the pre-header)
+			ia, io := bf.atom(init)
+			holdsInit := false
+			if ia == "0" && io <= 0 {
+				holdsInit = true // a length is >= 0
+			} else {
+				for k, pred := range hd.Preds {
+					if !loop[pred] && phi.Edges[k] == init {
+						holdsInit = bf.prove1(ia, io, L, 0, pred.Instrs[len(pred.Instrs)-1], nil)
+					}
+				}
+			}
+			if !holdsInit {
+				continue
+			}
+			bf.inv = append(bf.inv, constraint{a: pa, b: L, c: 0, deps: []ssa.Value{phi},
+				why: fmt.Sprintf("loop counter %s is only incremented where %s < %s held: %s <= %s", phi.Name(), phi.Name(), L, phi.Name(), L)})
+		}
+	}
 }
 
 var precondBusy = map[*ssa.Function]bool{}
